@@ -635,7 +635,9 @@ func runC18(o Opts) {
 	}
 	// 3. the real command: every flag combination x source x input class
 	inputs := [][]byte{{}, []byte("hello"), []byte("hello\n"), []byte(" hello"), []byte(" hello "), []byte("he llo"), []byte(" \n\t "),
-		{0xff, 0xfe, ' ', '\n'}, {'a', 0x00, 'b', '\n'}, []byte("\xed\xa0\x80 "), []byte("​x​"), []byte("x　"), {0x80}, []byte("line1\nline2\n\n")}
+		{0xff, 0xfe, ' ', '\n'}, {'a', 0x00, 'b', '\n'}, []byte("\xed\xa0\x80 "), []byte("​x​"), []byte("x　"), {0x80}, []byte("line1\nline2\n\n"),
+		// a byte order mark is not white space: text that starts with one is sent byte for byte
+		{0xEF, 0xBB, 0xBF}, append([]byte{0xEF, 0xBB, 0xBF}, []byte("hello")...), append([]byte{0xEF, 0xBB, 0xBF}, []byte("hello\n")...), append([]byte{0xEF, 0xBB, 0xBF, ' '}, []byte("x")...)}
 	extra := 10
 	if thorough {
 		extra = 200
